@@ -241,6 +241,9 @@ func (p *textProgressBar) onSize(size int64) {
 		return
 	}
 	p.fileSize = p.preSize + size
+	if p.fileSize < 0 { // a negative size (announced by the peer, or an overflow) is drawn as an empty file
+		p.fileSize = 0
+	}
 }
 
 func (p *textProgressBar) onStep(step int64) {
@@ -248,6 +251,9 @@ func (p *textProgressBar) onStep(step int64) {
 		return
 	}
 	step += p.preSize
+	if step > p.fileSize { // never draw beyond 100%, whatever the peer acknowledges
+		step = p.fileSize
+	}
 	if step <= p.fileStep {
 		return
 	}
